@@ -532,7 +532,7 @@ func genShape(r *hx.Rand, n int, shape string) []string {
 
 // ---------------------------------------------------------------- threshold family (size dimension)
 
-var sizeMarks = []int{1, 2, 63, 64, 65, 255, 256, 257, 1023, 1024, 1025, 65535, 65536, 65537}
+var sizeMarks = []int{1, 2, 63, 64, 65, 255, 256, 257, 1023, 1024, 1025, 65535, 65536, 65537, 1<<20 - 1, 1 << 20, 1<<20 + 1}
 
 // elems: the elements worth asking about for a structure of n elements — first, last, middle, the ones next to a
 // threshold, and invalid ones of every magnitude.
